@@ -15,7 +15,8 @@ process regardless of ... definition or import order" (C03).  At the level of on
   * nothing else is added, and nothing is ever removed from the result set.
 
 Ghost state: 'collected' -- the rules on which collect_transitive_dependencies was started by the function under verification, in order;
-'visits' -- the visit records appended by _visit_dependency (an [effect] of its contract: the record of being called), used by the
+'visited' / 'nvisits' -- the set of visit records and the number of visits made by _visit_dependency (an [effect] of its contract: the record of being
+called), used by the
 contracts of the two collect_transitive_dependencies methods.
 
 Assumed: the strategy loop `resolve_symbol` (iteration over HashRule.all_rules, blacklist filter): it answers None exactly when
@@ -54,7 +55,7 @@ def load(R):
     R.entity("HashRule", ("code_hash", "HashRule"), dict(rule_fields))
     R.entity("MementoFunctionHashRule", ("code_hash", "MementoFunctionHashRule"), dict(rule_fields, memento_fn=TObj(), resolver=TObj()))
     R.entity("NonMementoFunctionHashRule", ("code_hash", "NonMementoFunctionHashRule"), dict(rule_fields, src_fn=TObj(), resolver=TObj()))
-    GH = {"collected": TList(TObj()), "visits": TList(TObj())}
+    GH = {"collected": TList(TObj()), "visited": TSet(TObj()), "nvisits": TInt}
 
     # ---------------------------------------------------------------- the walk along a dotted name (specification functions)
     def walk_axioms(ex, gt, bl, parts):
@@ -219,9 +220,9 @@ def load(R):
                    "implies(MISSING(), NONE_COLLECTED() and WATCHED(REACH(STOP()), PARTS()[STOP() + 1], False))",
                    # the whole name exists and nothing along it is described by a rule: nothing to record
                    "implies(FOUND0() and not resolvable(REACH(STOP()), blacklist) and STOP() + 1 == len(PARTS()), RESULT_SAME() and NONE_COLLECTED())",
-                   "[effect] len(ghost('visits')) == old(len(ghost('visits'))) + 1 and same(ghost('visits')[old(len(ghost('visits')))], "
-                   "visit_rec(src_fn, parent_symbol, symbol, required, first_level, root_fn, package_scope, blacklist))",
-                   "[effect] forall(int, lambda k: implies(0 <= k and k < old(len(ghost('visits'))), same(ghost('visits')[k], old(ghost('visits')[k]))))",
+                   # the record of being called: one more visit, of exactly this (function, namespace, name, required, direct, traversal)
+                   "[effect] ghost('nvisits') == old(ghost('nvisits')) + 1",
+                   "[effect] forall(obj, lambda x: (x in ghost('visited')) == (old(x in ghost('visited')) or same(x, visit_rec(src_fn, parent_symbol, symbol, required, first_level, root_fn, package_scope, blacklist))))",
                ],
                raises={"DependencyNotFoundError": [
                    "required and PLAIN()",
@@ -232,21 +233,20 @@ def load(R):
                           "forall(int, lambda j: implies(0 <= j and j < loop_i, not resolvable(REACH(j), blacklist) and has_attr(REACH(j), PARTS()[j + 1])))",
                           "dict_has(GT(), PARTS()[0])", "same(global_table, GT())"]},
                labels={"local_types": {"parts": TList(TStr)}},
-               modifies=["result", "ghost:collected", "ghost:visits"])
+               modifies=["result", "ghost:collected", "ghost:visited", "ghost:nvisits"])
 
     # ---------------------------------------------------------------- the two traversals that descend
     # From the property (C14: "the transitive memento dependencies ... are exactly the memento functions reachable in that reference graph ... through plain
     # helper functions of the same package, with cycles"): a rule that is already in the result set is not traversed again (cycles end); otherwise the
-    # rule is recorded and EVERY name its function refers to -- declared (required) and detected -- is visited exactly once, from the function's own
+    # rule is recorded and EVERY name its function refers to -- declared (required) and detected -- is visited (as many visits as there are names), from the function's own
     # globals, with the function's own name as namespace; dependencies of the root are the direct ones; a plain function outside the package scope is
     # neither recorded nor looked into.
     R.external("inspect.getmodule", returns=TObj("nn:module"), ensures=["same(result, module_of(arg0))"])
     R.contract("code_hash:list_dotted_names", assumed=True, types={"fn": TObj()}, returns=TObj("nn:set"), ensures=["same(result, dotted_names(fn))"],
                notes="assumed: the AST visitor (source text -> set of dotted names) is outside the verifier's subset; it is a function of the source function")
-    R.spec("NV0", [], "old(len(ghost('visits')))")
-    R.spec("VISITS_SAME", [], "len(ghost('visits')) == NV0()")
-    R.spec("VISITED", ["src", "parent", "name", "req", "direct"],
-           "exists(int, lambda k: NV0() <= k and k < len(ghost('visits')) and same(ghost('visits')[k], visit_rec(src, parent, name, req, direct, root_fn, package_scope, blacklist)))")
+    R.spec("NV0", [], "old(ghost('nvisits'))")
+    R.spec("VISITS_SAME", [], "ghost('nvisits') == NV0() and forall(obj, lambda x: (x in ghost('visited')) == old(x in ghost('visited')))")
+    R.spec("VISITS_KEPT", [], "forall(obj, lambda x: implies(old(x in ghost('visited')), x in ghost('visited')))")
     R.spec("MFN", [], "self.memento_fn")
     R.spec("MREC", ["name", "req"], "visit_rec(MFN().src_fn, MFN().qualified_name_without_version, name, req, MFN() is root_fn, root_fn, package_scope, blacklist)")
     CT_TYPES = {"result": RS, "root_fn": TObj(), "package_scope": TObj("nn:set"), "blacklist": TObj("nn:list")}
@@ -260,19 +260,19 @@ def load(R):
                ensures=["RESULT_KEEPS()",
                         "implies(old(self in result), RESULT_SAME() and VISITS_SAME())",
                         "implies(not old(self in result), self in result)",
-                        "implies(not old(self in result), len(ghost('visits')) == NV0() + len(MFN().required_dependencies) + len(MFN().detected_dependencies))",
-                        "implies(not old(self in result), forall(int, lambda j: implies(0 <= j and j < len(MFN().required_dependencies), "
-                        "same(ghost('visits')[NV0() + j], MREC(MFN().required_dependencies[j], True)))))",
-                        "implies(not old(self in result), forall(int, lambda j: implies(0 <= j and j < len(MFN().detected_dependencies), "
-                        "same(ghost('visits')[NV0() + len(MFN().required_dependencies) + j], MREC(MFN().detected_dependencies[j], False)))))"],
+                        # every declared and every detected name is visited (as many visits as names), with the function's own globals / name, required resp. optional
+                        "implies(not old(self in result), ghost('nvisits') == NV0() + len(MFN().required_dependencies) + len(MFN().detected_dependencies))",
+                        "implies(not old(self in result), forall(int, lambda j: implies(0 <= j and j < len(MFN().required_dependencies), MREC(MFN().required_dependencies[j], True) in ghost('visited'))))",
+                        "implies(not old(self in result), forall(int, lambda j: implies(0 <= j and j < len(MFN().detected_dependencies), MREC(MFN().detected_dependencies[j], False) in ghost('visited'))))",
+                        "VISITS_KEPT()"],
                raises={"DependencyNotFoundError": []},
-               loops={1: ["len(ghost('visits')) == NV0() + loop_i", "self in result", "RESULT_KEEPS()", "same(memento_fn, self.memento_fn)",
-                          "forall(int, lambda j: implies(0 <= j and j < loop_i, same(ghost('visits')[NV0() + j], MREC(MFN().required_dependencies[j], True))))"],
-                      2: ["len(ghost('visits')) == NV0() + len(MFN().required_dependencies) + loop_i", "self in result", "RESULT_KEEPS()", "same(memento_fn, self.memento_fn)",
-                          "forall(int, lambda j: implies(0 <= j and j < len(MFN().required_dependencies), same(ghost('visits')[NV0() + j], MREC(MFN().required_dependencies[j], True))))",
-                          "forall(int, lambda j: implies(0 <= j and j < loop_i, same(ghost('visits')[NV0() + len(MFN().required_dependencies) + j], MREC(MFN().detected_dependencies[j], False))))"]},
+               loops={1: ["ghost('nvisits') == NV0() + loop_i", "self in result", "RESULT_KEEPS()", "same(memento_fn, self.memento_fn)", "VISITS_KEPT()",
+                          "forall(int, lambda j: implies(0 <= j and j < loop_i, MREC(MFN().required_dependencies[j], True) in ghost('visited')))"],
+                      2: ["ghost('nvisits') == NV0() + len(MFN().required_dependencies) + loop_i", "self in result", "RESULT_KEEPS()", "same(memento_fn, self.memento_fn)", "VISITS_KEPT()",
+                          "forall(int, lambda j: implies(0 <= j and j < len(MFN().required_dependencies), MREC(MFN().required_dependencies[j], True) in ghost('visited')))",
+                          "forall(int, lambda j: implies(0 <= j and j < loop_i, MREC(MFN().detected_dependencies[j], False) in ghost('visited')))"]},
                labels={"prebox_entities": True},
-               modifies=["result", "ghost:collected", "ghost:visits"])
+               modifies=["result", "ghost:collected", "ghost:visited", "ghost:nvisits"])
     R.spec("SFN", [], "self.src_fn")
     R.spec("IN_SCOPE", [], "module_of(SFN()).__package__ in package_scope")
     R.spec("SREC", ["name"], "visit_rec(SFN(), SFN().__module__ + ':' + SFN().__qualname__, name, False, False, root_fn, package_scope, blacklist)")
@@ -283,14 +283,14 @@ def load(R):
                ensures=["RESULT_KEEPS()",
                         "implies(old(self in result) or not IN_SCOPE(), RESULT_SAME() and VISITS_SAME())",
                         "implies(not old(self in result) and IN_SCOPE(), self in result)",
-                        "implies(not old(self in result) and IN_SCOPE(), len(ghost('visits')) == NV0() + len(dotted_names(SFN())))",
-                        "implies(not old(self in result) and IN_SCOPE(), forall(int, lambda j: implies(0 <= j and j < len(dotted_names(SFN())), "
-                        "same(ghost('visits')[NV0() + j], SREC(dotted_names(SFN())[j])))))"],
+                        "implies(not old(self in result) and IN_SCOPE(), ghost('nvisits') == NV0() + len(dotted_names(SFN())))",
+                        "implies(not old(self in result) and IN_SCOPE(), forall(int, lambda j: implies(0 <= j and j < len(dotted_names(SFN())), SREC(dotted_names(SFN())[j]) in ghost('visited'))))",
+                        "VISITS_KEPT()"],
                raises={"DependencyNotFoundError": []},
-               loops={1: ["len(ghost('visits')) == NV0() + loop_i", "self in result", "RESULT_KEEPS()", "same(src_fn, self.src_fn)",
-                          "forall(int, lambda j: implies(0 <= j and j < loop_i, same(ghost('visits')[NV0() + j], SREC(dotted_names(SFN())[j]))))"]},
+               loops={1: ["ghost('nvisits') == NV0() + loop_i", "self in result", "RESULT_KEEPS()", "same(src_fn, self.src_fn)", "VISITS_KEPT()",
+                          "forall(int, lambda j: implies(0 <= j and j < loop_i, SREC(dotted_names(SFN())[j]) in ghost('visited')))"]},
                labels={"prebox_entities": True},
-               modifies=["result", "ghost:collected", "ghost:visits"])
+               modifies=["result", "ghost:collected", "ghost:visited", "ghost:nvisits"])
 
     # ---------------------------------------------------------------- the three strategies behind resolve_symbol (try_resolve)
     # From the property (C14: reference forms "bare name, module.attr, alias, decorator-wrapped"): a reference denotes a memento function when the object or
